@@ -40,3 +40,40 @@ def coeff_map(terms):
         key = tuple(sorted((int(q), p) for q, p in ops.items() if p != "I"))
         out[key] = out.get(key, 0) + complex(c)
     return out
+
+
+# ---- coefficient-map algebra (no dense matrices: usable for qubit indices of any size) --------------------------------------------
+_P2 = {"I": np.eye(2, dtype=complex), "X": np.array([[0, 1], [1, 0]], dtype=complex), "Y": np.array([[0, -1j], [1j, 0]], dtype=complex), "Z": np.array([[1, 0], [0, -1]], dtype=complex)}
+# single-qubit table derived from the 2x2 matrices themselves: P.Q = phase * R
+TABLE = {}
+for _a, _A in _P2.items():
+    for _b, _B in _P2.items():
+        _prod = _A @ _B
+        for _r, _R in _P2.items():
+            _ph = np.trace(_R.conj().T @ _prod) / 2
+            if abs(_ph) > 0.5:
+                TABLE[(_a, _b)] = (_r, complex(_ph))
+
+
+def map_mul(a, b):
+    """product of two coefficient maps {sorted ((q, P), ...): c}"""
+    out = {}
+    for ka, ca in a.items():
+        for kb, cb in b.items():
+            da, db = dict(ka), dict(kb)
+            ph, res = 1, {}
+            for q in set(da) | set(db):
+                r, f = TABLE[(da.get(q, "I"), db.get(q, "I"))]
+                ph *= f
+                if r != "I":
+                    res[q] = r
+            key = tuple(sorted(res.items()))
+            out[key] = out.get(key, 0) + ca * cb * ph
+    return out
+
+
+def map_add(a, b, sign=1):
+    out = dict(a)
+    for k, c in b.items():
+        out[k] = out.get(k, 0) + sign * c
+    return out
